@@ -1357,6 +1357,12 @@ def nan_placeholder_rule(ctx, rid):
             return bad[0] if bad else ("ok" if rs and all(r == "ok" for r in rs) else None)
         if isinstance(e, (ast.GeneratorExp, ast.ListComp)):
             return classify(e.elt)
+        if isinstance(e, ast.IfExp):
+            a_, b_ = classify(e.body), classify(e.orelse)
+            for r_ in (a_, b_):
+                if isinstance(r_, tuple):
+                    return r_
+            return "ok" if a_ == b_ == "ok" else None
         if isinstance(e, ast.Call):
             fn = norm(e.func)
             last = fn.rsplit(".", 1)[-1]
@@ -1399,6 +1405,23 @@ def nan_placeholder_rule(ctx, rid):
             rr.bad(ctx.finding(rid, f, r, c[1], construct="placeholder-fill " + norm(r.value.func if isinstance(r.value, ast.Call) else r.value)), "placeholder fill")
         else:
             raise AnalysisError("idiom changed: nan_like_result returns `%s`, not a recognised NaN / None constructor" % norm(r.value)[:80])
+    # several outputs: a str output cannot take a NaN stand-in (numpy turns array(nan) stacked with strings into the *string*
+    # 'nan', which is not null); the function's own top-level rule gives str the None stand-in -- the per-element branch must too
+    RES = f.positional[0]
+    per_el = [x for x in walk_shallow(f.node) if isinstance(x, (ast.GeneratorExp, ast.ListComp)) and len(x.generators) == 1 and norm(x.generators[0].iter) == RES]
+    top_str = any(isinstance(t_, ast.Call) and norm(t_.func) == "isinstance" and len(t_.args) == 2 and norm(t_.args[0]) == RES and "str" in norm(t_.args[1]) for t_ in ast.walk(f.node))
+    for x in per_el:
+        v = x.generators[0].target
+        el = x.elt
+        handles = any(isinstance(t_, ast.Call) and norm(t_.func) == "isinstance" and len(t_.args) == 2 and norm(t_.args[0]) == norm(v) and "str" in norm(t_.args[1]) for t_ in ast.walk(el)) or \
+            any(isinstance(t_, ast.Call) and isinstance(t_.func, ast.Name) and t_.func.id == f.name for t_ in ast.walk(el))
+        if handles:
+            rr.ok("each output of a several-output result gets its own stand-in, str outputs the None one")
+        elif top_str:
+            rr.bad(ctx.finding(rid, f, x, "for a result with several outputs every output gets `%s`, also a str output: stacked with the real strings numpy turns array(nan) into the string 'nan', so the unfinished positions of that variable hold "
+                               "ordinary (non-null) text instead of the missing placeholder -- the function's own rule for a str result (None) is not applied per output" % norm(el)[:50], construct="placeholder-str-element"), "placeholder per output")
+        else:
+            raise AnalysisError("idiom changed: per-output stand-ins of nan_like_result")
     return rr
 
 
